@@ -291,3 +291,27 @@ def literal_members(repo: Repo, mod, ann: ast.expr) -> Optional[List]:
         if isinstance(obj, tuple) and obj[0] == "const":
             return literal_members(repo, obj[2], obj[1])
     return None
+
+
+
+def assemble_loop(repo):
+    """The function of Mesh that holds the per-operation assembling loop: Mesh.assemble itself, or a private method of Mesh that
+    assemble() calls and that contains the call self._add_vertices(...) (the loop may be wrapped for error handling)."""
+    import ast as _ast
+
+    from .model import attr_chain as _chain
+
+    asm = repo.func("mesh.Mesh.assemble")
+
+    def holds(fn):
+        return any(isinstance(c, _ast.Call) and _chain(c.func) == "self._add_vertices" for c in _ast.walk(fn.node))
+
+    if holds(asm):
+        return asm
+    mesh = repo.cls("mesh.Mesh")
+    for c in _ast.walk(asm.node):
+        if isinstance(c, _ast.Call) and isinstance(c.func, _ast.Attribute) and isinstance(c.func.value, _ast.Name) and c.func.value.id == "self":
+            fn = mesh.methods.get(c.func.attr)
+            if fn is not None and fn is not asm and holds(fn):
+                return fn
+    return asm
